@@ -15,8 +15,11 @@ import traceback
 from pathlib import Path
 
 ROOT = Path(__file__).resolve().parent.parent
-EVIDENCE = ROOT / "evidence"
-REPLAYS = ROOT / "replays"
+# JXV_OUT redirects evidence and replay files (used only by the regression tools, which run the checks on patched scratch
+# worktrees and must not touch the evidence of the unchanged tree)
+_OUT = Path(os.environ["JXV_OUT"]) if os.environ.get("JXV_OUT") else ROOT
+EVIDENCE = _OUT / "evidence"
+REPLAYS = _OUT / "replays"
 KNOWN = ROOT / "known_findings.jsonl"
 
 GLOBAL_ASSUMPTIONS = [
@@ -142,9 +145,9 @@ class Check:
         payload.setdefault("property", self.pid)
         payload.setdefault("obligation", obligation)
         payload["reproduced_natively"] = bool(reproduced)
-        payload.setdefault("replay_cmd", f"./check --replay {path.relative_to(ROOT)}")
+        payload.setdefault("replay_cmd", f"./check --replay {path.relative_to(_OUT)}")
         path.write_text(json.dumps(payload, indent=1, default=str))
-        self.violations.append((obligation, str(path.relative_to(ROOT)), not reproduced))
+        self.violations.append((obligation, str(path.relative_to(_OUT)), not reproduced))
 
     def primitive_selftest(self):
         """differential self-test of the primitive models against the installed jax (bounded; part of the trusted base report)"""
